@@ -30,6 +30,32 @@ type Op struct {
 	Op  string `json:"op"`
 	N   int    `json:"n,omitempty"`
 	Ref string `json:"ref,omitempty"`
+	Av  int    `json:"av,omitempty"` // tag: the descriptor carries the annotation verif.variant=v<Av> (0: none)
+}
+
+// tagDesc is the descriptor handed to Tag.
+func tagDesc(g *vh.Graph, op Op) ocispec.Descriptor {
+	d := g.Descs[op.N]
+	if op.Av != 0 {
+		d.Annotations = map[string]string{"verif.variant": fmt.Sprint("v", op.Av)}
+	}
+	return d
+}
+
+// annSig is a canonical string of a descriptor's annotations without the reference name.
+func annSig(a map[string]string) string {
+	var ks []string
+	for k := range a {
+		if k != ocispec.AnnotationRefName {
+			ks = append(ks, k)
+		}
+	}
+	sort.Strings(ks)
+	out := ""
+	for _, k := range ks {
+		out += k + "=" + a[k] + ";"
+	}
+	return out
 }
 
 type Scenario struct {
@@ -53,7 +79,7 @@ func apply(ctx context.Context, st *oci.Store, g *vh.Graph, op Op) error {
 	case "push":
 		return st.Push(ctx, g.Descs[op.N], bytes.NewReader(g.Blobs[op.N]))
 	case "tag":
-		return st.Tag(ctx, g.Descs[op.N], op.Ref)
+		return st.Tag(ctx, tagDesc(g, op), op.Ref)
 	case "untag":
 		return st.Untag(ctx, op.Ref)
 	case "delete":
@@ -61,7 +87,7 @@ func apply(ctx context.Context, st *oci.Store, g *vh.Graph, op Op) error {
 	case "gc":
 		return st.GC(ctx)
 	case "tagsave": // AutoSaveIndex off: tag in memory, then SaveIndex
-		if err := st.Tag(ctx, g.Descs[op.N], op.Ref); err != nil {
+		if err := st.Tag(ctx, tagDesc(g, op), op.Ref); err != nil {
 			return err
 		}
 		return st.SaveIndex()
@@ -105,10 +131,17 @@ func gen(count int, seed int64, out string) {
 			pres = append(pres, k)
 		}
 		sort.Ints(pres)
+		both := 0
+		if len(pres) > 0 && rng.Intn(3) == 0 {
+			both = pres[rng.Intn(len(pres))] // every reference on one node
+		}
 		for _, r := range refs {
-			if len(pres) > 0 && rng.Intn(3) != 0 {
+			if len(pres) > 0 && (both != 0 || rng.Intn(3) != 0) {
 				k := pres[rng.Intn(len(pres))]
-				sc.Setup = append(sc.Setup, Op{Op: "tag", N: k, Ref: r})
+				if both != 0 {
+					k = both
+				}
+				sc.Setup = append(sc.Setup, Op{Op: "tag", N: k, Ref: r, Av: rng.Intn(3)})
 				tags[r] = k
 			}
 		}
@@ -139,7 +172,13 @@ func gen(count int, seed int64, out string) {
 			if len(pres) == 0 {
 				continue
 			}
-			sc.Victim = Op{Op: "tag", N: pres[rng.Intn(len(pres))], Ref: refs[rng.Intn(len(refs))]}
+			sc.Victim = Op{Op: "tag", N: pres[rng.Intn(len(pres))], Ref: refs[rng.Intn(len(refs))], Av: rng.Intn(3)}
+			if rng.Intn(2) == 0 {
+				// the same content again under a reference it already has, described with other annotations
+				for r, k := range tags {
+					sc.Victim = Op{Op: "tag", N: k, Ref: r, Av: 1 + rng.Intn(2)}
+				}
+			}
 		case "untag":
 			if len(tags) == 0 {
 				continue
@@ -261,7 +300,7 @@ func main() {
 			tags := [][]any{}
 			for _, r := range refs {
 				if d, err := st.Resolve(ctx, r); err == nil {
-					tags = append(tags, []any{r, g.NodeOf(d)})
+					tags = append(tags, []any{r, g.NodeOf(d), annSig(d.Annotations)})
 				}
 			}
 			out["exists"], out["fetchok"], out["tags"] = vh.Ints(exists), vh.Ints(fetchok), tags
